@@ -41,7 +41,8 @@ META = {
     'technique': 'Lean 4 proof (induction over the period list, append lemma, series frame) + differential correspondence check',
 }
 
-SPAN_KINDS = ['range', 'range0', 'mixed', 'strs', 'np_dup', 'np_int', 'np_str', 'pd_index', 'period_A', 'period_Q', 'datetime']
+SPAN_KINDS = ['range', 'range0', 'mixed', 'strs', 'np_dup', 'np_int', 'np_str', 'pd_index', 'period_A', 'period_Q', 'datetime',
+              'np_float', 'np_float_dates', 'np_float_stamps', 'tuple_int']
 
 
 def make_span(kind, n):
@@ -66,6 +67,18 @@ def make_span(kind, n):
     if kind == 'np_str':
         labs = [f'p{i}' for i in range(n)]
         return np.array(labs), labs, 'zz'
+    if kind == 'np_float':            # float labels are labels like any other: exact match, no tolerance
+        labs = [2000.0 + 0.25 * i for i in range(n)]
+        return np.array(labs), labs, 1999.75
+    if kind == 'np_float_dates':      # yyyymmdd written as floats: neighbours differ by 5e-8 relative
+        labs = [20200101.0 + i for i in range(n)]
+        return np.array(labs), labs, 20200100.0
+    if kind == 'np_float_stamps':     # POSIX seconds at hourly steps; the absent label is a near miss of a present one
+        labs = [1.6e9 + 3600.0 * i for i in range(n)]
+        return np.array(labs), labs, 1.6e9 + 0.5
+    if kind == 'tuple_int':
+        labs = [7 * i - 3 for i in range(n)]
+        return tuple(labs), labs, 1000
     if kind == 'pd_index':
         labs = [10 * i + 5 for i in range(n)]
         return pd.Index(labs), labs, 3
@@ -130,7 +143,8 @@ def gen_case(rng):
     case = {'n': n, 'nE': nE, 'check': [0, 1], 'tol': bits(sc.TOL), 'script': script, 'before': [], 'after': [],
             'vals': [[bits(x) for x in row] for row in vals],
             'status': ''.join(rng.choice('-.F') for _ in range(n)) if rng.random() < 0.3 else '-' * n,
-            'iters': [-1] * n, 'opts': o, 'lags': lags, 'leads': leads, 't': 0}
+            'iters': [-1] * n, 'opts': o, 'lags': lags, 'leads': leads, 't': 0,
+            'prov': rng.choice(sc.PROVENANCES), 'write': rng.choice(['inplace', 'inplace', 'rebind'])}
     span, labels, absent = make_span(kind, n)
 
     def pick():
